@@ -339,13 +339,13 @@ pub fn check(env: &mut PEnv, c: &Case) -> Verdict {
     if let (Ok(path), Verdict::Fail { signature, detail }) = (std::env::var("VERIF_C55_SURVEY"), &v) {
         use std::io::Write;
         if let Ok(mut fh) = std::fs::OpenOptions::new().create(true).append(true).open(path) {
-            let _ = writeln!(fh, "{signature}\t{detail}");
+            let _ = fh.write_all(format!("{signature}\t{detail}\n").as_bytes());
         }
         if !signature.starts_with("panic") {
             return Verdict::pass(false, &["survey-failure"]);
         }
     }
-    v
+    tolerate(v)
 }
 
 fn atom_strategy() -> BoxedStrategy<Case> {
@@ -444,6 +444,7 @@ impl Prop for C55 {
         d.res.extra.insert("exhaustive_atoms".into(), json!(if cfg.shard == 0 { total as u64 } else { 0 }));
         d.run("atom", 0, cfg.share(cfg.tier.pick(40_000, 2_000_000)), 5000, atom_strategy(), &mk_penv, &check);
         d.run("term", 1, cfg.share(cfg.tier.pick(20_000, 1_000_000)), 2000, term_strategy(), &mk_penv, &check);
+        drain_tolerated(&mut d.res);
         d.finish()
     }
     fn replay(&self, _kind: &str, case: &Value) -> Verdict {
